@@ -77,7 +77,7 @@ CHECKS["C06"] = ("seqx", "model_checking", "exhaustive matrix source class x cop
     "copy.copy and Substructure are views by definition and not claimed; name/charge/mult/attrib of products and join geometry belong to C12.", "4 C06")
 CHECKS["C07"] = ("enumx", "model_checking", "exhaustive enumeration of all (element x atom type x geometry) typings atom-locally and through text, all bond types and set-histories, small-scope structures through every writer/reader entry point",
     "All 44 982 typings (119 x 21 x 18 in this tree) and all bond types go through get/set/get and through written text; every small-scope structure (0..3 atoms, name/label/coordinate/charge alphabets incl. NaN, 1e7, half-way decimals, every bond subset, 1..3 conformers) goes through 3 writers x 15 readers and a second write; oracle = independent spec of the structure with the tolerances the property states (1e-6 / 1e-3) and byte-identical second write.",
-    "Whitespace-free labels and one-line names only (as the property states); one typing defect (X.pl3/.th/.oh rewritten as X) is a recorded known finding.", "4 C07")
+    "Whitespace-free labels and one-line names only (as the property states).", "4 C07")
 CHECKS["C08"] = ("enumx", "model_checking", "exhaustive enumeration of small geometries (0..3 atoms, all 119 elements, dummy atoms, coordinate alphabet, 1..3 frames, explicit formats) through every xyz writer/reader entry point, and of every DistanceUnit member through every xyz and mol2 reader",
     "Every geometry of the alphabet is written by 3 writers and read by 21 readers as CartesianGeometry/Structure/Molecule/ConformerEnsemble and compared to written precision; for every member of DistanceUnit the same geometry expressed in that unit by the harness's own CODATA table is read with source_units and its coordinates compared (rel. 1e-5) with the Angstrom original.",
     "Coordinate lattice (no +-inf, |x| <= 1e7); <= 3 atoms (thorough 4).", "4 C08")
